@@ -262,6 +262,8 @@ def poll_future(ex, f, cx):
     if isinstance(v, Closure) and last is not None: f = last       # single-level &mut to the coroutine itself
     if isinstance(v, Opaque) and v.tag == 'stubfuture':
         return Agg('Poll', 0, [Cell(v.data)])
+    if isinstance(v, Opaque) and v.tag == 'pendingfuture':
+        return Agg('Poll', 1, [])
     if isinstance(v, Closure) and v.body is not None:
         return ex.call_fn(v.body, [f if isinstance(f, Ref) else Ref(Cell(v)), cx])
     if isinstance(v, Agg) and v.name == 'Timeout':
